@@ -53,7 +53,9 @@ pub fn nasm_to_gas(text: &str) -> Result<String, String> {
         let known = [
             "add", "sub", "imul", "idiv", "cqo", "jmp", "lea", "mov", "cmp", "je", "jne", "jl", "jle", "jg", "jge", "push", "pop", "call", "ret",
         ];
-        if !known.contains(&mn) {
+        // conditional jumps take a label only: identical in both syntaxes whatever the condition
+        let cond_jump = mn.starts_with('j') && mn.len() <= 5 && mn.chars().all(|c| c.is_ascii_lowercase()) && !rest.contains('[') && !rest.contains(' ');
+        if !known.contains(&mn) && !cond_jump {
             return Err(format!("unknown instruction form: {t}"));
         }
         let mut rest = rest.to_string();
